@@ -11,6 +11,8 @@ class _World(object):
         self.reset()
 
     def reset(self):
+        self.local_hosts = None
+        self.sockopt_fail = None
         self.now = 0.0
         self.calls = []        # every DelayedCall ever created (pending ones are .active())
         self.connectors = []   # every connectTCP call, in order
@@ -99,6 +101,13 @@ class Transport(object):
         pass
 
     def getHost(self):
+        # the harness may script what the socket reports per connection (W.local_hosts: address, or 'raise')
+        hosts = getattr(W, 'local_hosts', None)
+        if hosts:
+            h = hosts[min(self.connector.index - 1, len(hosts) - 1)] if hasattr(self.connector, 'index') else hosts[-1]
+            if h == 'raise':
+                raise OSError('getsockname failed')
+            return Addr(h, 40000 + len(W.connectors))
         return Addr(self.local, 40000 + len(W.connectors))
 
     def getPeer(self):
@@ -124,6 +133,28 @@ class Transport(object):
 
     def abortConnection(self):
         self.loseConnection()
+
+
+class _Socket(object):
+    def __init__(self, connector):
+        self.connector = connector
+        self.options = []
+
+    def setsockopt(self, level, opt, value):
+        # fault injection: W.sockopt_fail = set of connector indexes (or 'all') for which the call fails
+        bad = getattr(W, 'sockopt_fail', None)
+        if bad and (bad == 'all' or self.connector.index in bad):
+            raise OSError(92, 'Protocol not available')
+        self.options.append((level, opt, value))
+
+
+class _PendingTransport(object):
+    def __init__(self, connector):
+        self.connector = connector
+        self.sock = _Socket(connector)
+
+    def getHandle(self):
+        return self.sock
 
 
 class Connector(object):
@@ -198,6 +229,8 @@ class Connector(object):
 def connectTCP(host, port, factory, timeout=30, bindAddress=None):
     c = Connector(host, port, factory, timeout, bindAddress)
     W.connectors.append(c)
+    c.index = len(W.connectors)
+    c.transport = _PendingTransport(c)        # like Twisted's Client: exists (with its socket) while connecting
     try:
         factory.startedConnecting(c)
     except AttributeError:
